@@ -73,7 +73,7 @@ func (j c09Job) build() *jen.File {
 func (j c09Job) run() string {
 	h := outHash(j.build())
 	q := rand.New(rand.NewSource(j.Seed ^ j.Item.Seed))
-	p := []string{"a.b/x", "c.d/x", "math/rand", "crypto/rand", "e.f/y/", "g.h/z/", "i.j/w/"}[q.Intn(7)]
+	p := []string{"a.b/x", "c.d/x", "math/rand", "crypto/rand", "e.f/y/", "g.h/y//", "i.j/y", "k.l/z/", "m.n/z"}[q.Intn(9)]
 	fr := jen.Var().Id("v").Op("=").Qual(p, "Sym")
 	var gs string
 	if pn, what := mon.Guard(func() { gs = fr.GoString() }); pn {
